@@ -356,6 +356,11 @@ type TypeOps struct {
 	MakeSl func(n int) Sl
 	// MakeSS makes per-channel slices with the given lengths (<0: nil).
 	MakeSS func(lens []int) SS
+	// MakeSSHidden makes per-channel slices like MakeSS, but the outer slice
+	// has spare capacity holding `hidden` further allocated rows: it returns
+	// the visible [][]T (len(lens) rows) and the whole backing (visible +
+	// hidden rows) for inspection.
+	MakeSSHidden func(lens, hidden []int) (SS, SS)
 	// Bulk primitives used by the exhaustive scans: fill positions 0..n-1 of
 	// a 1-channel buffer from raw carriers / read them back.
 	Fill   func(b Buf, in []uint64)
@@ -404,6 +409,15 @@ func mkOps[T signal.SignalTypes](name string, named bool, base int) *TypeOps {
 				}
 			}
 			return &gss[T]{s: s, ti: ti}
+		},
+		MakeSSHidden: func(lens, hidden []int) (SS, SS) {
+			all := make([][]T, len(lens)+len(hidden))
+			for i, n := range append(append([]int(nil), lens...), hidden...) {
+				if n >= 0 {
+					all[i] = make([]T, n)
+				}
+			}
+			return &gss[T]{s: all[:len(lens)], ti: ti}, &gss[T]{s: all, ti: ti}
 		},
 		Fill: func(b Buf, in []uint64) {
 			d := b.(*gbuf[T]).b
